@@ -338,7 +338,12 @@ func (g *dgen) line(allowCond bool) *sx.Node {
 		tags = append(tags, sx.Str([]string{"tag", "line:12", "a_b", "é", "x-1"}[g.r.Intn(5)]))
 	}
 	if g.cfg.visitLines {
-		for _, n := range append(append([]string{}, g.nodes...), "Ghost") {
+		// ... and of names that are not nodes: an unknown name, and one node's name with a blank before / after it
+		probes := append(append([]string{}, g.nodes...), "Ghost")
+		if len(g.nodes) > 0 {
+			probes = append(probes, []string{" " + g.nodes[0], g.nodes[len(g.nodes)-1] + " ", "\t" + g.nodes[0] + " "}[g.r.Intn(3)])
+		}
+		for _, n := range probes {
 			elems = append(elems, sx.Tag("t", sx.Str(" "+n+"=")), sx.Tag("e", fnCall("visited_count", strLit(n))),
 				sx.Tag("t", sx.Str("/")), sx.Tag("e", fnCall("visited", strLit(n))))
 		}
@@ -480,6 +485,14 @@ func (g *dgen) stmt(depth int) *sx.Node {
 		if g.fault() {
 			f = []string{"noret", "fail", "nope"}[g.r.Intn(3)]
 		}
+		if c.faultPct >= 10 && g.r.Intn(4) == 0 {
+			// a fault inside an argument of a call statement (a value-less function used as a value, a failing
+			// function, an unknown one), bare or below an operator / another call: the statement must fail
+			bad := []*sx.Node{fnCall("noret"), fnCall("fail", numLit(1)), fnCall("no_such_function"),
+				binOp("+", numLit(1), fnCall("noret")), fnCall("p", strLit("t0"), fnCall("noret")),
+				fnCall("string", fnCall("noret")), sx.Tag("neg", fnCall("noret"))}[g.r.Intn(7)]
+			args = append(args, bad)
+		}
 		return sx.Tag("call", sx.Str(f), sx.List(args...))
 	case 7:
 		t := []string{"num", "bool", "str"}[g.r.Intn(3)]
@@ -618,6 +631,21 @@ func (g *dgen) dialogue() []*sx.Node {
 			}
 		}
 		body := []*sx.Node{sx.Tag("line", sx.List(firstElems...), sx.List(), sx.List())}
+		tracked := true
+		for _, h := range headers {
+			if h.L[0].Text() == "tracking" && h.L[1].Text() == "never" {
+				tracked = false
+			}
+		}
+		if i > 0 && tracked && g.cfg.visitedFns && g.cfg.loopPct > 0 && g.r.Intn(6) == 0 {
+			// a silent loop: the node is entered again and again with the same variables and nothing shown in
+			// between; only its visit count (or a stateful host function) changes and ends the loop
+			var cond *sx.Node = binOp("<", fnCall("visited_count", strLit(name)), numLit(float64(2+g.r.Intn(2))))
+			if g.r.Intn(3) == 0 {
+				cond = binOp("<", fnCall("p", strLit("tick"), fnCall("visited_count", strLit(name))), numLit(2))
+			}
+			body = append([]*sx.Node{sx.Tag("if", sx.Tag("clause", cond, sx.List(sx.Tag("jump", strLit(name)))))}, body...)
+		}
 		if i == 0 {
 			// most variables get a value first, so that scripts are mostly valid
 			for _, d := range []struct {
